@@ -8,6 +8,7 @@
 import GeonumModel.Spec.FloatSpec
 import Mathlib.Analysis.SpecialFunctions.Pow.Real
 import Mathlib.Analysis.SpecialFunctions.Trigonometric.DerivHyp
+import Mathlib.Analysis.Complex.ExponentialBounds
 
 namespace GeonumModel
 open Classical
@@ -107,7 +108,17 @@ noncomputable instance instFloatSpecReal : FloatSpec ℝ where
     show |Real.arcsin a| ≤ Real.pi / 2
     rw [abs_le]; exact ⟨Real.neg_pi_div_two_le_arcsin a, Real.arcsin_le_pi_div_two a⟩⟩
   exp_spec := fun {a} _ _ => ⟨trivial, Real.exp_pos a, fun h => Real.one_le_exp h,
-    fun h => by show Real.exp a ≤ 1; exact Real.exp_le_one_iff.mpr h⟩
+    fun h => by show Real.exp a ≤ 1; exact Real.exp_le_one_iff.mpr h,
+    fun h => by
+      have h' : |a| ≤ 1 := h
+      rw [abs_le] at h'
+      have e1 : Real.exp 1 < 3 := lt_trans Real.exp_one_lt_d9 (by norm_num)
+      have up : Real.exp a ≤ Real.exp 1 := Real.exp_le_exp.mpr h'.2
+      have lo : Real.exp (-1) ≤ Real.exp a := Real.exp_le_exp.mpr h'.1
+      have : (1:ℝ) / 3 ≤ Real.exp (-1) := by
+        rw [Real.exp_neg, one_div]
+        exact inv_anti₀ (Real.exp_pos 1) (le_of_lt e1)
+      exact ⟨by show (1:ℝ) / 3 ≤ Real.exp a; linarith, by show Real.exp a ≤ 3; linarith⟩⟩
   tanh_spec := fun {a} _ => ⟨trivial, by
     show |Real.tanh a| ≤ 1
     rw [abs_le]; exact ⟨le_of_lt (Real.neg_one_lt_tanh a), le_of_lt (Real.tanh_lt_one a)⟩⟩
